@@ -37,6 +37,7 @@ struct obj {
 	int ckidx;
 	struct cookie ck[2];
 	int occ[4];
+	int inpost;		/* threads currently inside a post on this object */
 };
 static struct obj O[NKIND][MAXO + 1];
 
@@ -52,7 +53,12 @@ static int nops;
 static char script_id[64], method[32] = "epoll-timerfd";
 static unsigned seed = 1;
 static int maxwait = 14, reuse, maxcb = 120;
-static int ncb, cbdepth, inapi, forced_quit, in_main;
+static int ncb, forced_quit, in_main;
+static __thread int cbdepth, inapi;
+#define MAXTH 6
+static pthread_t thr[MAXTH];
+static int thr_started[MAXTH], thr_joined[MAXTH];
+static int schedbuf[1024], nsched, sched_det, sticky = -1;
 
 /* ---------------------------------------------------------------- helpers */
 static int kind_of(const char *s)
@@ -291,6 +297,7 @@ static ssize_t io_rw(int fd, int wr, long n)
 }
 
 static int do_env(struct op *p);
+static void *thread_body(void *arg);
 
 static void do_op(struct op *p)
 {
@@ -426,7 +433,7 @@ static void do_op(struct op *p)
 		if (r != 0) quarantine(K_EV, id);
 	} else if (!strcmp(n, "ev_unreg")) {
 		OBJ(K_EV);
-		if (!o->reg) { skip(n, id); goto out; }
+		if (!o->reg || o->inpost) { skip(n, id); goto out; }
 		iv_event_unregister(o->mem);
 		o->reg = 0;
 		alog(n, id, 0, 0, 0, 0, 0);
@@ -434,7 +441,10 @@ static void do_op(struct op *p)
 	} else if (!strcmp(n, "ev_post")) {
 		OBJ(K_EV);
 		if (!o->reg) { skip(n, id); goto out; }
+		tr("\"e\":\"PostB\",\"k\":\"ev\",\"o\":%d,\"n\":1}", id);
+		o->inpost++;
 		iv_event_post(o->mem);
+		o->inpost--;
 		alog(n, id, 0, 0, 0, 0, 0);
 	} else if (!strcmp(n, "raw_reg")) {
 		OBJ(K_RAW);
@@ -449,7 +459,7 @@ static void do_op(struct op *p)
 		if (r != 0) quarantine(K_RAW, id);
 	} else if (!strcmp(n, "raw_unreg")) {
 		OBJ(K_RAW);
-		if (!o->reg) { skip(n, id); goto out; }
+		if (!o->reg || o->inpost) { skip(n, id); goto out; }
 		iv_event_raw_unregister(o->mem);
 		o->reg = 0;
 		alog(n, id, 0, 0, 0, 0, 0);
@@ -457,8 +467,30 @@ static void do_op(struct op *p)
 	} else if (!strcmp(n, "raw_post")) {
 		OBJ(K_RAW);
 		if (!o->reg) { skip(n, id); goto out; }
+		tr("\"e\":\"PostB\",\"k\":\"raw\",\"o\":%d,\"n\":1}", id);
+		o->inpost++;
 		iv_event_raw_post(o->mem);
+		o->inpost--;
 		alog(n, id, 0, 0, 0, 0, 0);
+	} else if (!strcmp(n, "raw_burst")) {
+		OBJ(K_RAW);
+		if (!o->reg) { skip(n, id); goto out; }
+		tr("\"e\":\"PostB\",\"k\":\"raw\",\"o\":%d,\"n\":%ld}", id, p->a[1]);
+		o->inpost++;
+		simk_quiet_io = 1;	/* one scheduling point for the whole burst */
+		for (long i = 0; i < p->a[1]; i++)
+			iv_event_raw_post(o->mem);
+		simk_quiet_io = 0;
+		simk_yield();
+		o->inpost--;
+		alog(n, id, p->a[1], 0, 0, 0, 0);
+	} else if (!strcmp(n, "spawn")) {
+		if (id < 1 || id >= MAXTH || thr_started[id]) { skip(n, id); goto out; }
+		thr_started[id] = 1;
+		tr("\"e\":\"Spawn\",\"x\":%d}", id);
+		pthread_create(&thr[id], NULL, thread_body, (void *)(long)id);
+	} else if (!strcmp(n, "yield")) {
+		simk_yield();
 	} else if (!strcmp(n, "quit")) {
 		iv_quit();
 		alog(n, 0, 0, 0, 0, 0, 0);
@@ -534,6 +566,29 @@ static void run_ops(char ctx, int kind, int id, int band, int occ, int q)
 
 static int wound_down, last_env_q;
 
+/* a plain (loop-less) thread running its 'T' operations in order */
+static void *thread_body(void *arg)
+{
+	int tid = (int)(long)arg;
+
+	tr("\"e\":\"ThB\"}");
+	for (int i = 0; i < nops; i++)
+		if (ops[i].ctx == 'T' && ops[i].kind == tid)
+			do_op(&ops[i]);
+	tr("\"e\":\"ThE\"}");
+	return NULL;
+}
+
+static void join_threads(void)
+{
+	for (int i = 1; i < MAXTH; i++) {
+		if (thr_started[i] && !thr_joined[i]) {
+			thr_joined[i] = 1;
+			pthread_join(thr[i], NULL);
+		}
+	}
+}
+
 static int env_at_quiescence(int q)
 {
 	int n = 0;
@@ -595,6 +650,12 @@ static void run_script(void)
 {
 	simk_init(seed);
 	simk_wait_limit = maxwait + 40;
+	simk_log_dec = 1;
+	simk_sched_det = sched_det;
+	if (nsched)
+		simk_set_schedule(schedbuf, nsched);
+	if (sticky >= 0)
+		simk_set_sticky(sticky);
 	hooks.truth_json = truth_json;
 	hooks.fid_of_ptr = fid_of_ptr;
 	hooks.fid_of_osfd = fid_of_osfd;
@@ -620,6 +681,7 @@ static void run_script(void)
 	in_main = 0;
 	tr("\"e\":\"MainE\"}");
 	run_ops('P', 0, 0, 0, 0, 0);
+	join_threads();
 	check_touch();
 	tr("\"e\":\"Deinit\"}");
 	iv_deinit();
@@ -636,6 +698,11 @@ static void reset_script(void)
 	seed = 1;
 	maxwait = 14;
 	reuse = 0;
+	nsched = 0;
+	sched_det = 0;
+	sticky = -1;
+	memset(thr_started, 0, sizeof thr_started);
+	memset(thr_joined, 0, sizeof thr_joined);
 	for (int k = 0; k < NKIND; k++)
 		for (int i = 0; i <= MAXO; i++)
 			O[k][i].osfd = O[k][i].peer = -1;
@@ -652,7 +719,7 @@ int main(int argc, char **argv)
 {
 	FILE *in = stdin;
 	int outfd = 1, timeout_s = 3, ntimeouts = 0;
-	char line[512];
+	char line[4096];
 
 	for (int i = 1; i < argc; i++) {
 		if (!strcmp(argv[i], "-i") && i + 1 < argc)
@@ -685,6 +752,14 @@ int main(int argc, char **argv)
 				else if (!strncmp(tok[i], "seed=", 5)) seed = atoi(tok[i] + 5);
 				else if (!strncmp(tok[i], "maxwait=", 8)) maxwait = atoi(tok[i] + 8);
 				else if (!strncmp(tok[i], "reuse=", 6)) reuse = atoi(tok[i] + 6);
+				else if (!strncmp(tok[i], "det=", 4)) sched_det = atoi(tok[i] + 4);
+				else if (!strncmp(tok[i], "sticky=", 7)) sticky = atoi(tok[i] + 7);
+				else if (!strncmp(tok[i], "sched=", 6)) {
+					nsched = 0;
+					for (char *q = tok[i] + 6; *q && nsched < 1024; q++)
+						if (*q >= '0' && *q <= '9')
+							schedbuf[nsched++] = *q - '0';
+				}
 			}
 			break;
 		case 'O': {
@@ -710,6 +785,14 @@ int main(int argc, char **argv)
 				p->band = atoi(tok[3]);
 				p->occ = atoi(tok[4]);
 				parse_op(p, tok + 5, nt - 5);
+			}
+			break;
+		case 'T':
+			if (nops < MAXOPS && nt >= 3) {
+				struct op *p = &ops[nops++];
+				p->ctx = 'T';
+				p->kind = atoi(tok[1]);
+				parse_op(p, tok + 2, nt - 2);
 			}
 			break;
 		case 'E':
